@@ -8,6 +8,40 @@ TB = ("Trusted: Lean 4.33 kernel; axioms propext, Classical.choice, Quot.sound (
 
 # id -> (category, technique, text, note, design_ref)
 CHECKS = {
+    "C01": ("proof", "Lean 4 theorems about the optimizer's tables and rewrites (regenerated from mir-gen.c/mir.c) + differential execution of random well-defined programs across interpreter and -O0..-O3",
+            "PROVED for all operand values: GVN constant folding = interpreter macro = documented result for every integer opcode; the folder never evaluates a "
+            "trapping division; MIR_reverse_branch_code, get_combined_br_code and commutative_insn_code are sound for every integer row; mul/udiv/div by 2^k = "
+            "the emitted shift sequences under exactly the guards the code checks (64- and 32-bit); store->load forwarding is sound only for 64-bit memory types. "
+            "The rest of the pipeline (SSA, LICM, RA, combine, encoder) is decided by running random well-defined programs (any CFG incl. irreducible loops and "
+            "switch, memory operands, alloca, overflow insns, calls) under MIR_interp, the interp C interface and MIR_gen -O0..-O3 and comparing results, buffer and call log.",
+            TB + " Partial: the unmodelled passes are only exercised; laddr/jmpi programs are not generated yet.", "4 C01"),
+    "C06": ("proof", "Lean 4 simulation proofs (callee placement, va_start/va_arg walk, frame arithmetic) over tables extracted from mir-gen-x86_64.c + assembly trampoline correspondence",
+            "PROVED for all signatures: incoming-argument placement of target_machinize and of the interpreter shim = psABI (partial where the code deviates, with counterexamples), "
+            "va_start/va_arg walk, frame alignment, disjoint save slots, alloca alignment, callee-saved set on the regenerated table. Correspondence: gcc-compiled callers enter MIR "
+            "functions through an assembly trampoline that records callee-saved registers, rsp, MXCSR and x87 state; sentinel probes observe placement.",
+            TB + " bv_decide axiom on one bridge lemma (Lemmas/BridgeAbiCallee). Register allocation is only tested through the trampoline.", "4 C06"),
+    "C13": ("proof", "Lean 4 invariant proofs over load/link histories (lastDef defined on the history) + exhaustive short histories against the real library",
+            "PROVED for every history: environment = last definition, binding_spec (the property statement), resolver/undeclared behaviour, redefinition rejection/permission, "
+            "frozen bindings once translated. Correspondence: all 14^4 (quick) / 14^5 (thorough) histories plus random ones run on the real library under NULL/interp/gen/lazy interfaces.",
+            TB + " The model is tied to mir.c only by the correspondence.", "4 C13"),
+    "C14": ("proof", "Lean 4 induction over item lists for both passes of load_bss_data_section + exhaustive item words against the real loader under ASan",
+            "PROVED for every item list: contiguity, maximality of sections, in-bounds, agreement of the size and placement passes, image contents, link-time ref/expr fill-in; "
+            "type-size table regenerated from mir.c. Correspondence: every word of length <= 3 (quick) / 4 (thorough) over a 16-symbol item alphabet plus random sequences, ASan and NDEBUG builds.",
+            TB + " lref values are validated behaviourally.", "4 C14"),
+    "C15": ("proof", "decide +kernel over the full (opcode x position x operand kind) grid on insn_descs regenerated from mir.c + exhaustive API correspondence",
+            "PROVED: per-operand structure of the checker's verdict; the whole verdict grid of the regenerated insn_descs equals the documented operand classes except at the listed deviations; "
+            "arity, ret/results, call/proto, overflow-branch adjacency, declaration errors for all inputs. Correspondence: every grid cell built through the public API under a longjmp-ing error function (ASan+UBSan).",
+            TB + " Operand values are abstracted to kinds.", "4 C15"),
+    "C17": ("proof", "Lean 4 ledger monitor + proofs that every VARR and code-page history is ledger-accepted + call-site inventory regenerated from the sources + checking allocators on API histories",
+            "PROVED for all histories: every realloc issued by mir-varr.h reports the block's true size (and MIR_realloc has no other call site, by the regenerated inventory); "
+            "every byte written by _MIR_set_code/_MIR_change_code lies inside its write/execute protection bracket; code_finish unmaps everything. Monitored: checking MIR_alloc/MIR_code_alloc and libc "
+            "interposition on API histories (scan/read/c2mir, load, link at every interface and level, gen, write/output, finish).",
+            TB + " Whole-library leak freedom is monitored on generated histories, not proved.", "4 C17"),
+    "C18": ("proof", "Lean 4 interleaving-independence theorem over a footprint inventory regenerated from clang's AST + ThreadSanitizer validation of the inventory",
+            "PROVED: if no operation writes a shared location and each thread touches only its own context, every interleaving gives each thread its sequential results (any number of threads, any trace); "
+            "per-run obligation: every write site of every non-const static object in the library sources (regenerated by translate/c18_inventory.py) is a listed finding. Dynamic: TSan runs of 2/4/8 threads "
+            "with overlapping init/finish; every report must name an inventory object.",
+            TB + " clang-14 AST as inventory source; schedules are sampled.", "4 C18"),
     "C02": ("proof", "Lean 4 theorems over BitVec 64/32 (docSem vs interpreter macro semantics) + dispatch table regenerated from mir-interp.c + value-grid correspondence over 6 engines",
             "All 46 integer arithmetic/logic/shift/compare opcodes, 20 compare-and-branch opcodes, EXT/UEXT, NEG/NEGS, the 8 overflow "
             "opcodes (flag formulas incl. the division-based MULO test) and narrow load/store are PROVED equal to the documented "
